@@ -795,16 +795,18 @@ MANIFEST = dict(
     text="Theorems (Properties/C11.lean, all column set-ups, any number of shifts and sub-mixes): weights_convex (weights of "
          "init_mix non-negative, sum 1, self > 1/3), bounded_mixing (max/min principle), closed_inventory_constant "
          "(diffusion only, closed ends, equal lengths), advective_shift_exact_forward/back, pure_advection_nmix_zero/"
-         "pure_advection_step, advection_keyword_exact, flux_inventory_balance_partial (+ stale_dav_breaks_symmetry, "
-         "stale_dav_inventory_witness: the hypothesis 'no zero dispersivity' cannot be dropped, the code's stale local dav). "
-         "Correspondence on every run: reader set-up mirror (bitwise), nmix and every mixing factor (model exact over the "
-         "rationals of the decimal inputs, compared as doubles at 1e-13 relative), every cell x step x quantity "
-         "(element moles, total H, total O, charge balance) vs transportRun at 1e-9 of the column scale. Obligations over "
-         "generated data only: the oracles for multi_d / implicit / stagnant / reactive solids.",
+         "pure_advection_step, advection_keyword_exact, flux_inventory_balance(_back) (flow, flux boundaries, equal lengths, "
+         "any dispersivities: inventory changes by inflow - outflow), stale_dav_regression(_inventory) (witness of the "
+         "repaired stale-dav defect). Correspondence on every run: reader set-up mirror (bitwise), nmix and every mixing "
+         "factor read mid-run from Dispersion_mix_map (model exact over the rationals of the decimal inputs, compared as "
+         "doubles at 1e-13 relative), every cell x step x quantity (element moles, total H, total O, charge balance) vs "
+         "transportRun at 1e-9 of the column scale; corpus of past findings replayed first. Obligations over generated data "
+         "only: the conservation / flux-balance / range oracles for multi_d / implicit / stagnant / reactive solids.",
     note="Trusted: Lean kernel; g++ harness with friend access and SetBasicCallback; Python reader mirror (short lists "
          "repeated, closed->flux with flow) and tolerance logic; phreeqc.dat speciation is not modelled (only the linear "
          "transport of totals; 'speciation conserves the input totals' is observed, not proved). Partial: no model of "
          "multi_D / diffuse_implicit / mix_stag / heat transport (oracles only, runs with ERROR are counted not judged); "
          "double rounding of floor(1.5*maxmix) at exact integers is accepted either way (counted as nmix_rounding_boundary); "
-         "range oracle is evaluated on concentrations with a 1e-9 slack.",
+         "range oracle is evaluated on concentrations with a 1e-9 slack. Known finding implicit-mcd-closed-inventory-drift: "
+         "implicit multicomponent diffusion drifts ~1e-13 mol per cell/element/sub-step (only that small drift is excused).",
 )
